@@ -423,6 +423,9 @@ type Contract struct {
 	Uses     []string  // lemmas to instantiate
 	Nullable []string
 	Permutes []string // extern: slice-valued params whose elements are permuted in place
+	AtCalls  []*Clause // call-site assertions inside this function
+	Touches  []string  // extern: params whose per-object ghost state becomes unknown
+	Fresh    bool      // extern: the first result is a newly allocated object
 }
 
 type SpecFunc struct {
@@ -646,6 +649,12 @@ func addClause(c *Contract, cl *Clause) {
 	case "permutes":
 		c.Permutes = append(c.Permutes, cl.Names...)
 		c.HasMod = true
+	case "at":
+		c.AtCalls = append(c.AtCalls, cl)
+	case "touches":
+		c.Touches = append(c.Touches, cl.Names...)
+	case "fresh":
+		c.Fresh = true
 	}
 }
 
@@ -698,10 +707,26 @@ func parseClause(word, rest string) (*Clause, error) {
 			cl.Expr = e
 		}
 		cl.Names = []string{name}
-	case "props", "results", "use", "nullable", "permutes":
+	case "props", "results", "use", "nullable", "permutes", "touches":
 		cl.Kind = word
 		cl.Names = strings.Fields(strings.ReplaceAll(rest, ",", " "))
-	case "inline", "trusted", "pure":
+	case "at":
+		// at <callee name>: assert [label] <expr>   -- checked in the caller at each call of callee
+		idx := strings.Index(rest, ": assert")
+		if idx < 0 {
+			return nil, fmt.Errorf("at clause needs '<callee>: assert <expr>'")
+		}
+		cl.Kind = "at"
+		cl.Names = []string{strings.TrimSpace(rest[:idx])}
+		rest = strings.TrimSpace(rest[idx+len(": assert"):])
+		cl.Src = rest
+		label()
+		e, err := ParseSpecExpr(rest)
+		if err != nil {
+			return nil, err
+		}
+		cl.Expr = e
+	case "inline", "trusted", "pure", "fresh":
 		cl.Kind = word
 	case "mayexit":
 		cl.Kind = "mayexit"
